@@ -9,6 +9,7 @@ CONSTANTS
   Getters = {1, 2, 3, 4, 5}
   Interrupters = {1, 2, 3, 4, 5}
   Fixed = TRUE
+  LockedInterrupt = TRUE
   Contig = FALSE
   KeepHist = 1
   Conform = TRUE
